@@ -736,3 +736,45 @@ pub fn vendor_grid_case(r: &mut Rng, idx: u64) -> Vec<u8> {
     }
     control_around(&body, 1, 2, 3, 4)
 }
+
+
+/// Text-fault grid: a text AVP (or the text tail of Result Code / Q.931 Cause Code) of a chosen
+/// length made of ASCII, with one ill-formed UTF-8 sequence (or none) overwriting the octets at a
+/// chosen distance from the start or from the end. Scanners that treat head, body and tail of a
+/// long text differently (word-at-a-time fast paths) meet every combination.
+pub const TEXT_KINDS: [u16; 6] = [8, 21, 22, 23, 1, 12];
+pub const TEXT_LENS: [usize; 10] = [9, 16, 31, 63, 64, 65, 80, 128, 255, 400];
+pub const TEXT_BAD: [&[u8]; 9] = [&[], &[0xff], &[0xc0, 0x80], &[0xc1, 0xbf], &[0xe0, 0x80, 0x80], &[0xed, 0xa0, 0xbd], &[0xf4, 0x90, 0x80, 0x80], &[0x80], &[0xe2, 0x82]];
+/// positions 0..=8 from the start, 0..=8 from the end, and the middle
+pub const TEXT_POS: usize = 19;
+pub const TEXT_GRID: u64 = (6 * 10 * 9 * TEXT_POS) as u64;
+pub fn text_grid_case(r: &mut Rng, idx: u64) -> Vec<u8> {
+    let attr = TEXT_KINDS[(idx % 6) as usize];
+    let len = TEXT_LENS[((idx / 6) % 10) as usize];
+    let bad = TEXT_BAD[((idx / 60) % 9) as usize];
+    let pos_sel = ((idx / 540) % TEXT_POS as u64) as usize;
+    let mut text: Vec<u8> = (0..len).map(|_| b'a' + r.below(26) as u8).collect();
+    let at = match pos_sel {
+        0..=8 => pos_sel,
+        9..=17 => len.saturating_sub(bad.len() + (pos_sel - 9)),
+        _ => len / 2,
+    };
+    let at = at.min(len.saturating_sub(bad.len()));
+    text[at..at + bad.len()].copy_from_slice(bad);
+    let payload = match attr {
+        1 => {
+            let mut p = vec![0, 1, 0, 6];
+            p.extend_from_slice(&text);
+            p
+        }
+        12 => {
+            let mut p = vec![0, 16, 3];
+            p.extend_from_slice(&text);
+            p
+        }
+        _ => text,
+    };
+    let mut body = message_type_record(1);
+    body.extend_from_slice(&raw_record(attr, false, 0, &payload, true));
+    control_around(&body, 1, 2, 3, 4)
+}
